@@ -532,6 +532,14 @@ def compiled_predicates(rep):
     rep.need("R13", len(nms), 2, "nm closures in _compile_node_matcher")
     defs = local_defs(fi.node)
     for clo in nms:
+        # a failure while the selected attributes are compared must not end the comparison early with an acceptance: an `except` around the
+        # attribute loop that answers with anything but False skips the attributes that were not compared yet
+        for tr in [t_ for t_ in ast.walk(clo) if isinstance(t_, ast.Try)]:
+            loop_rejects = any(isinstance(l_, ast.For) and any(isinstance(r_, ast.Return) and is_const(r_.value, False) for r_ in ast.walk(l_)) for st_ in tr.body for l_ in ast.walk(st_))
+            soft = [r_ for h_ in tr.handlers for st_ in h_.body for r_ in ast.walk(st_) if isinstance(r_, ast.Return) and not is_const(r_.value, False)]
+            if loop_rejects and soft:
+                rep.ob("O7.4", "R13", fi, False, soft[0], "compiled node predicate == selected attributes equal AND G1.hcount >= G2.hcount: an exception inside the "
+                       "attribute comparison is answered by the handler without comparing the remaining attributes (a missing attribute makes the pair match)", node=soft[0])
         try:
             pf = M.normalise_predicate(clo)
         except Undecided as exc:
